@@ -145,4 +145,22 @@ CHECKS = {
                 'proved); controllers and predictive models are covered through the objects they delegate to (C14/C15).',
         'technique': 'Coq proof (structural induction over compositions) + exact vm_compute correspondence',
     },
+    'C02': {
+        'text': 'Machine-checked proof (Properties/C02.v): for EVERY composition the start/shift loop that reads the bottom '
+                'block places the k-th bottom entry of an individual at the k-th non-special dimension and leaves exactly '
+                'the pooled / heterogeneous dimensions to the population parameters (gather theorem, axiom-free); vector '
+                'length = names = IDs and the IDs mark the individual-level block; the score is the population part '
+                'plus the sum of the individual likelihoods and the early -inf return is the same value. The terms of '
+                'that sum are those of C01/C04 (individual likelihoods), C05 (population densities, transforms) and C07 '
+                '(covariate shifts). Tied to /repo on every run: tagged vectors through the real reshaping code '
+                '(vm_compute); the score of real HierarchicalLogLikelihood objects over compositions of all kinds '
+                '(non-centred, covariate-wrapped, pooled, heterogeneous, truncated, with a fixed population parameter) '
+                'certified by CoqInterval against the assembled specification; names and IDs checked by perturbing '
+                'each position.',
+        'note': 'Trusted: Coq kernel, stdlib, Coquelicot, CoqInterval, ' + STD_AXIOMS + ' (real-valued parts); hand-written '
+                'models; harness/popspec.py assembles the specification sum (this assembly is the property statement, not '
+                'a theorem); shifted parameters of truncated-Gaussian terms are constant-folded in exact rational '
+                'arithmetic because CoqInterval cannot reify integration bounds containing literal zeros.',
+        'technique': 'Coq proof (gather theorem by induction over special ranges) + exact vm_compute and CoqInterval correspondence',
+    },
 }
